@@ -85,7 +85,34 @@ Theorem C16_v1_publish_nonblocking : forall C cv cap (st : V1.state C) m,
     /\ V1.rxcnt C st' = V1.rxcnt C st.
 Proof. exact V1Proofs.publish_nonblocking. Qed.
 
-(* ---------------- v2 port *)
+(* ---------------- v2 port (the public port: allow_duplicate_subscription = true) *)
+
+(* (7) every run of the v2 port projected on one subscription is a run of Sub1 without a ring *)
+Theorem C16_v2_refines_sub1 : forall C cv ls st s a c,
+  V2.run C cv true (V2.init C) ls = Some st -> V2.conv_of C s ls = Some (a, c) ->
+  crun None (cv c) ainit (V2.projs C s a ls) = Some (V2.absv C s a st).
+Proof. exact V2Proofs.v2_refines. Qed.
+
+(* (8) v2: none skipped.  What the receiver got through s is a PREFIX of the converter-mapped
+   messages published after the subscription (equal up to the subscriber's stop), and while
+   the port still serves s and its actor lives: received ++ mailbox ++ not yet dispatched
+   = everything owed (so at quiescence received = everything owed) *)
+Theorem C16_v2_exact : forall C cv ls st s a c,
+  V2.run C cv true (V2.init C) ls = Some st -> V2.conv_of C s ls = Some (a, c) ->
+  prefix (V2.received C st s a) (filter_map (cv c) (V2.pubs_after C s ls))
+  /\ (let x := V2.absv C s a st in active x = true -> c_alive x = true ->
+      c_got x ++ c_mbox x ++ filter_map (cv c) (held x ++ c_backlog x)
+      = filter_map (cv c) (V2.pubs_after C s ls)).
+Proof. exact V2Proofs.v2_exact. Qed.
+
+(* (9) v2: other subscribers (stopping, being removed on a failed send, subscribing) are inert *)
+Theorem C16_v2_dead_subscriber_inert : forall C cv ls1 ls2 st1 st2 s a c,
+  V2.run C cv true (V2.init C) ls1 = Some st1 -> V2.run C cv true (V2.init C) ls2 = Some st2 ->
+  V2.conv_of C s ls1 = Some (a, c) -> V2.conv_of C s ls2 = Some (a, c) ->
+  V2.projs C s a ls1 = V2.projs C s a ls2 ->
+  V2.absv C s a st1 = V2.absv C s a st2.
+Proof. exact V2Proofs.v2_inert. Qed.
+
 Theorem C16_v2_publish_nonblocking : forall C cv (st : V2.state C) m,
   exists st', V2.step C cv true st (V2.LPublish m) = Some st'
     /\ V2.queue C st' = V2.queue C st ++ [V2.Data m] /\ V2.batch C st' = V2.batch C st
@@ -131,6 +158,12 @@ Proof. exact is_prefix_sound. Qed.
 Check (C16_v1_subsequence : forall C cv cap ls st s a c,
   V1.run C cv cap (V1.init C) ls = Some st -> V1.conv_of C s ls = Some (a, c) ->
   sublist (V1.received C st s) (filter_map (cv c) (V1.pubs_after C s ls))).
+Check (C16_v2_exact : forall C cv ls st s a c,
+  V2.run C cv true (V2.init C) ls = Some st -> V2.conv_of C s ls = Some (a, c) ->
+  prefix (V2.received C st s a) (filter_map (cv c) (V2.pubs_after C s ls))
+  /\ (let x := V2.absv C s a st in active x = true -> c_alive x = true ->
+      c_got x ++ c_mbox x ++ filter_map (cv c) (held x ++ c_backlog x)
+      = filter_map (cv c) (V2.pubs_after C s ls))).
 Check (C16_v1_dead_subscriber_inert : forall C cv cap ls1 ls2 st1 st2 s a c,
   V1.run C cv cap (V1.init C) ls1 = Some st1 -> V1.run C cv cap (V1.init C) ls2 = Some st2 ->
   V1.conv_of C s ls1 = Some (a, c) -> V1.conv_of C s ls2 = Some (a, c) ->
@@ -164,6 +197,15 @@ Example ex_never_behind_fails :
   V1.behind cspec st 0 = 20%nat.
 Proof. vm_compute. reflexivity. Qed.
 
+(* the hypotheses of C16_v2_exact's second part are met: subscription 0 of the example is
+   still served, its actor alive, and everything owed has been received *)
+Example ex_v2_active :
+  let '(_, st, _) := X2.exec ex_sc in
+  let x := V2.absv cspec 0 0 st in
+  active x = true /\ c_alive x = true /\ c_backlog x = [] /\ c_mbox x = []
+  /\ c_got x = filter_map (cv ex_all) (V2.pubs_after cspec 0 (X2.trace ex_sc)).
+Proof. vm_compute. repeat split; reflexivity. Qed.
+
 Print Assumptions C16_v1_subsequence.
 Print Assumptions C16_v1_refines_sub1.
 Print Assumptions C16_v1_lag_bound.
@@ -172,6 +214,9 @@ Print Assumptions C16_v1_dead_subscriber_inert.
 Print Assumptions C16_v1_other_steps_invisible.
 Print Assumptions C16_v1_publish_nonblocking.
 Print Assumptions C16_v2_publish_nonblocking.
+Print Assumptions C16_v2_refines_sub1.
+Print Assumptions C16_v2_exact.
+Print Assumptions C16_v2_dead_subscriber_inert.
 Print Assumptions C16_sub1_subsequence.
 Print Assumptions C16_sub1_unbounded_exact.
 Print Assumptions C16_canonical_v1_is_run.
